@@ -709,6 +709,235 @@ def c15(tier, seed):
     return out
 
 
+# ------------------------------------------------------------------ C14: block structure (grammar + interpreter through the real binary)
+# cnt <name> <n>: the test of a while loop: passes n times, then fails once and starts over (state in a file, so a loop that is entered again counts again)
+CNT = ('#!/bin/sh\nf=".cnt.$1"; c=0; [ -f "$f" ] && c=$(cat "$f"); c=$((c+1))\n'
+       'if [ "$c" -le "$2" ]; then echo "$c" > "$f"; echo "w:$1:$c"; exit 0; else rm -f "$f"; echo "w:$1:end"; exit 1; fi\n')
+EQ = '#!/bin/sh\n[ "$1" = "$2" ]\n'      # eq <a> <b>: silent comparison
+
+
+class _Brk(Exception):
+    pass
+
+
+class _Cont(Exception):
+    pass
+
+
+def _c14_gen(rnd, depth, in_loop, ids, budget):
+    """a random statement list (nested to `depth`), as a tree: ('cmd', tag) | ('if', [(tag, rc, body)...], else_body|None) | ('for', var, words, body)
+    | ('while', name, n, body) | ('break',) | ('continue',) | ('ifeq', var, word, body)  (a break / continue is generated only inside a loop)"""
+    out = []
+    n = rnd.randint(1, 3)
+    for _ in range(n):
+        if budget[0] <= 0:
+            break
+        budget[0] -= 1
+        k = rnd.random()
+        ids[0] += 1
+        t = 'c%d' % ids[0]
+        if depth <= 0 or k < 0.35:
+            out.append(('cmd', t))
+        elif k < 0.55:
+            brs = [(t + 'a', rnd.choice([0, 1, 1, 2]), _c14_gen(rnd, depth - 1, in_loop, ids, budget))]
+            for j in range(rnd.randint(0, 2)):
+                brs.append((t + 'e%d' % j, rnd.choice([0, 1, 1]), _c14_gen(rnd, depth - 1, in_loop, ids, budget)))
+            els = _c14_gen(rnd, depth - 1, in_loop, ids, budget) if rnd.random() < 0.5 else None
+            out.append(('if', brs, els))
+        elif k < 0.72:
+            words = [rnd.choice('pqrs') + str(j) for j in range(rnd.randint(0, 3))]
+            out.append(('for', 'v%d' % ids[0], words, _c14_gen(rnd, depth - 1, ('for', 'v%d' % ids[0], words), ids, budget)))
+        elif k < 0.86:
+            out.append(('while', 'l%d' % ids[0], rnd.randint(0, 3), _c14_gen(rnd, depth - 1, ('while',), ids, budget)))
+        elif in_loop:
+            # a break / continue: plain, or guarded by the value of the loop variable / an if that passes or fails
+            kind = rnd.choice(['break', 'continue'])
+            if in_loop[0] == 'for' and in_loop[2] and rnd.random() < 0.6:
+                out.append(('ifeq', in_loop[1], rnd.choice(in_loop[2]), [(kind,)]))
+            elif rnd.random() < 0.5:
+                out.append(('if', [(t + 'g', rnd.choice([0, 1]), [('cmd', t + 'x'), (kind,)])], None))
+            else:
+                out.append((kind,))
+        else:
+            out.append(('cmd', t))
+    if not out:
+        ids[0] += 1
+        out.append(('cmd', 'c%d' % ids[0]))
+    return out
+
+
+def _c14_text(body, ind, style):
+    """the script text of a statement list; style picks between the spellings the grammar accepts (`; then` / `; do` or a bare newline, indentation)"""
+    pad = ' ' * (ind * style['w'])
+    then = '; then' if style['then'] else ''
+    do = '; do' if style['do'] else ''
+    ls = []
+    for st in body:
+        if st[0] == 'cmd':
+            ls.append(pad + './st %s 0' % st[1])
+        elif st[0] in ('break', 'continue'):
+            ls.append(pad + st[0])
+        elif st[0] == 'ifeq':
+            ls.append(pad + 'if ./eq $%s %s%s' % (st[1], st[2], then))
+            ls += _c14_text(st[3], ind + 1, style)
+            ls.append(pad + 'fi')
+        elif st[0] == 'if':
+            for j, (tag, rc, b) in enumerate(st[1]):
+                ls.append(pad + ('if' if j == 0 else 'else if') + ' ./st %s %d%s' % (tag, rc, then))
+                ls += _c14_text(b, ind + 1, style)
+            if st[2] is not None:
+                ls.append(pad + 'else')
+                ls += _c14_text(st[2], ind + 1, style)
+            ls.append(pad + 'fi')
+        elif st[0] == 'for':
+            ls.append(pad + 'for %s in %s%s' % (st[1], ' '.join(st[2]) if st[2] else '$NOTHING_SET', do))
+            ls.append(pad + ' ' * style['w'] + './st %s=$%s 0' % (st[1], st[1]))
+            ls += _c14_text(st[3], ind + 1, style)
+            ls.append(pad + 'done')
+        elif st[0] == 'while':
+            ls.append(pad + 'while ./cnt %s %d%s' % (st[1], st[2], do))
+            ls += _c14_text(st[3], ind + 1, style)
+            ls.append(pad + 'done')
+    return ls
+
+
+def _c14_run(body, env, out, fuel):
+    """the structured semantics the statement prescribes (the reference): appends the lines the script must print"""
+    for st in body:
+        fuel[0] -= 1
+        if fuel[0] < 0:
+            raise OverflowError
+        if st[0] == 'cmd':
+            out.append(st[1])
+        elif st[0] == 'break':
+            raise _Brk()
+        elif st[0] == 'continue':
+            raise _Cont()
+        elif st[0] == 'ifeq':
+            if env.get(st[1]) == st[2]:
+                _c14_run(st[3], env, out, fuel)
+        elif st[0] == 'if':
+            done = False
+            for tag, rc, b in st[1]:
+                out.append(tag)
+                if rc == 0:
+                    _c14_run(b, env, out, fuel)
+                    done = True
+                    break
+            if not done and st[2] is not None:
+                _c14_run(st[2], env, out, fuel)
+        elif st[0] == 'for':
+            for wd in st[2]:
+                env[st[1]] = wd
+                out.append('%s=%s' % (st[1], wd))
+                try:
+                    _c14_run(st[3], env, out, fuel)
+                except _Brk:
+                    break
+                except _Cont:
+                    continue
+        elif st[0] == 'while':
+            c = 0
+            while True:
+                c += 1
+                if c > st[2]:
+                    out.append('w:%s:end' % st[1])
+                    break
+                out.append('w:%s:%d' % (st[1], c))
+                try:
+                    _c14_run(st[3], env, out, fuel)
+                except _Brk:
+                    # the counter file stays: take the loop out of the re-entry game by never generating a re-entered while with break (see generator use)
+                    env.setdefault('__dirty', set()).add(st[1])
+                    break
+                except _Cont:
+                    continue
+
+
+def _c14_has_break_in_while(body, in_while=False):
+    for st in body:
+        if st[0] == 'break' and in_while:
+            return True
+        if st[0] in ('ifeq',) and _c14_has_break_in_while(st[3], in_while):
+            return True
+        if st[0] == 'if':
+            if any(_c14_has_break_in_while(b, in_while) for _, _, b in st[1]) or (st[2] is not None and _c14_has_break_in_while(st[2], in_while)):
+                return True
+        if st[0] == 'for' and _c14_has_break_in_while(st[3], False):
+            return True
+        if st[0] == 'while' and _c14_has_break_in_while(st[3], True):
+            return True
+    return False
+
+
+def c14(tier, seed):
+    import random
+    F = {'st': ST, 'cnt': CNT, 'eq': EQ}
+    out = [
+        # fixed cases: one per clause of the statement
+        {'script': 'if ./st t1 1\n    ./st no 0\nelse if ./st t2 0\n    ./st yes 0\nelse if ./st t3 0\n    ./st no 0\nelse\n    ./st no 0\nfi\n./st end 0\n', 'files': F, 'expect_stdout': 't1\nt2\nyes\nend\n', 'area': 'if:first-true-branch-only'},
+        {'script': 'if ./st t1 2\n    ./st no 0\nelse\n    ./st else 0\nfi\n', 'files': F, 'expect_stdout': 't1\nelse\n', 'area': 'if:else'},
+        {'script': 'if ./st t1 1\n    ./st no 0\nfi\n./st end 0\n', 'files': F, 'expect_stdout': 't1\nend\n', 'area': 'if:no-branch'},
+        {'script': 'for x in a b c\n    ./st $x 0\ndone\n', 'files': F, 'expect_stdout': 'a\nb\nc\n', 'area': 'for:each-word-in-order'},
+        {'script': 'for x in a "b c" \'d e\' f\n    ./st "[$x]" 0\ndone\n', 'files': F, 'expect_stdout': '[a]\n[b c]\n[d e]\n[f]\n', 'area': 'for:quoted-words'},
+        {'script': 'while ./cnt k 3\n    ./st body 0\ndone\n./st end 0\n', 'files': F, 'expect_stdout': 'w:k:1\nbody\nw:k:2\nbody\nw:k:3\nbody\nw:k:end\nend\n', 'area': 'while:test-before-every-round'},
+        {'script': 'while ./cnt k 0\n    ./st no 0\ndone\n./st end 0\n', 'files': F, 'expect_stdout': 'w:k:end\nend\n', 'area': 'while:zero-rounds'},
+        {'script': 'for x in a b\n    for y in 1 2 3\n        if ./eq $y 2\n            break\n        fi\n        ./st $x$y 0\n    done\n    ./st after-$x 0\ndone\n', 'files': F,
+         'expect_stdout': 'a1\nafter-a\nb1\nafter-b\n', 'area': 'break:innermost-loop-only'},
+        {'script': 'for x in a b\n    for y in 1 2 3\n        if ./eq $y 2\n            continue\n        fi\n        ./st $x$y 0\n    done\n    ./st after-$x 0\ndone\n', 'files': F,
+         'expect_stdout': 'a1\na3\nafter-a\nb1\nb3\nafter-b\n', 'area': 'continue:innermost-loop-only'},
+        {'script': 'while ./cnt k 3\n    for y in 1 2\n        break\n    done\n    ./st round 0\ndone\n', 'files': F, 'expect_stdout': 'w:k:1\nround\nw:k:2\nround\nw:k:3\nround\nw:k:end\n', 'area': 'break:in-for-inside-while'},
+        {'script': 'for x in a b c\n    while ./cnt k 5\n        if ./eq $x b\n            break\n        fi\n        continue\n        ./st no 0\n    done\n    ./st $x 0\ndone\n', 'files': F,
+         'expect_stdout_any': ['w:k:1\nw:k:2\nw:k:3\nw:k:4\nw:k:5\nw:k:end\na\nw:k:1\nb\nw:k:2\nw:k:3\nw:k:4\nw:k:5\nw:k:end\nc\n'], 'area': 'break-and-continue:while-inside-for', 'timeout': 12},
+        {'script': 'for x in a b c\n    if ./eq $x b\n        if ./st deep 0\n            continue\n        fi\n        ./st no 0\n    fi\n    ./st $x 0\ndone\n', 'files': F, 'expect_stdout': 'a\ndeep\nc\n', 'area': 'continue:through-nested-ifs'},
+        {'script': 'for x in a b c\n    if ./eq $x b\n        ./st pre 0\n    else\n        if ./eq $x c\n            break\n        fi\n    fi\n    ./st $x 0\ndone\n./st end 0\n', 'files': F, 'expect_stdout': 'a\npre\nb\nend\n', 'area': 'break:through-else-and-nested-if'},
+        {'script': 'if ./st t 0; then\n    ./st a 0\nfi\nfor x in 1 2; do\n    ./st $x 0\ndone\nwhile ./cnt k 1; do\n    ./st b 0\ndone\n', 'files': F, 'expect_stdout': 't\na\n1\n2\nw:k:1\nb\nw:k:end\n', 'area': 'spelling:then-and-do'},
+        {'script': 'if ./st t 0\n\n    ./st a 0\n\n    # comment\nfi\n\n./st end 0\n', 'files': F, 'expect_stdout': 't\na\nend\n', 'area': 'spelling:blank-and-comment-lines'},
+        {'script': './st a 0\nbreak\n./st b 0\ncontinue\n./st c 0\n', 'files': F, 'expect_stdout': 'a\nb\nc\n', 'area': 'break-continue:outside-a-loop-is-diagnosed-and-ignored'},
+        {'script': 'function f() {\n    for x in 1 2 3\n        if ./eq $x 2\n            break\n        fi\n        ./st f$x 0\n    done\n    ./st f-end 0\n}\nfor y in a b\n    f\n    ./st $y 0\ndone\n', 'files': F,
+         'expect_stdout': 'f1\nf-end\na\nf1\nf-end\nb\n', 'area': 'break:inside-a-function-called-in-a-loop'},
+        {'script': 'if ./st a 0 && ./st b 1\n    ./st no 0\nelse\n    ./st else 0\nfi\nif ./st c 1 || ./st d 0\n    ./st yes 0\nfi\nif ./st e 1; ./st f 0\n    ./st yes2 0\nfi\n', 'files': F,
+         'expect_stdout': 'a\nb\nelse\nc\nd\nyes\ne\nf\nyes2\n', 'area': 'if:condition-is-the-status-of-the-test-line'},
+        {'script': 'if ./st 1 0\n  if ./st 2 0\n    if ./st 3 0\n      if ./st 4 0\n        if ./st 5 0\n          for x in a\n            while ./cnt k 1\n              ./st deep-$x 0\n            done\n          done\n        fi\n      fi\n    fi\n  fi\nfi\n./st end 0\n', 'files': F,
+         'expect_stdout': '1\n2\n3\n4\n5\nw:k:1\ndeep-a\nw:k:end\nend\n', 'area': 'nesting:depth-7'},
+    ]
+    # keywords that do not balance: a diagnostic, and nothing after the point of the imbalance runs silently cut off (with the repair fb11690: nothing runs at all)
+    for name, txt in [('if-without-fi', './st a 0\nif ./st t 0\n    ./st b 0\n./st c 0\n'), ('for-without-done', './st a 0\nfor x in 1 2\n    ./st $x 0\n./st c 0\n'),
+                      ('while-without-done', './st a 0\nwhile ./cnt k 1\n    ./st b 0\n'), ('stray-fi', './st a 0\nfi\n./st c 0\n'), ('stray-done', './st a 0\ndone\n./st c 0\n'),
+                      ('stray-else', './st a 0\nelse\n./st c 0\n'), ('fi-closing-a-for', 'for x in 1\n    ./st $x 0\nfi\n./st c 0\n'), ('done-closing-an-if', 'if ./st t 0\n    ./st b 0\ndone\n./st c 0\n'),
+                      ('extra-done-after-a-loop', 'for x in 1\n    ./st $x 0\ndone\ndone\n./st c 0\n'), ('inner-if-not-closed', 'for x in 1 2\n    if ./st t 0\n        ./st b 0\ndone\n./st c 0\n'),
+                      ('else-after-else', 'if ./st t 1\n    ./st b 0\nelse\n    ./st c 0\nelse\n    ./st d 0\nfi\n./st e 0\n'), ('empty-if-body', 'if ./st t 0\nfi\n./st c 0\n')]:
+        out.append({'script': txt, 'files': F, 'expect_stderr_contains': 'syntax error', 'expect_no_stdout_line': 'c', 'area': 'unbalanced:' + name})
+    # generated programs against the reference semantics
+    rnd = random.Random(1400 + seed)
+    n = 60 if tier == 'quick' else 400
+    made = 0
+    guard = 0
+    while made < n and guard < 20 * n:
+        guard += 1
+        ids = [0]
+        body = _c14_gen(rnd, rnd.randint(1, 4), None, ids, [rnd.randint(4, 16)])
+        # a while loop left by break keeps its counter: exclude programs where such a loop could be entered again (only top-level whiles may hold a break)
+        if _c14_has_break_in_while(body):
+            nested = any(st[0] != 'while' and _c14_has_break_in_while([st]) for st in body)
+            if nested:
+                continue
+        style = {'w': rnd.choice([0, 2, 4]), 'then': rnd.random() < 0.3, 'do': rnd.random() < 0.3}
+        exp = []
+        try:
+            _c14_run(body, {}, exp, [400])
+        except OverflowError:
+            continue
+        except (_Brk, _Cont):
+            continue
+        text = '\n'.join(_c14_text(body, 0, style)) + '\n'
+        if len(exp) < 2:
+            continue
+        out.append({'script': text, 'files': F, 'expect_stdout': ''.join(x + '\n' for x in exp), 'expect_rc_any': None, 'area': 'generated:depth-%d' % max(1, text.count('\n') // 8), 'timeout': 20})
+        made += 1
+    return out
+
+
 # ------------------------------------------------------------------ C02: pipelines
 def c02(tier, seed):
     F = {'st': ST}
@@ -928,4 +1157,4 @@ def c06(tier, seed):
     return out
 
 
-CASES = {'C06': c06, 'C08': c08, 'C01': c01, 'C05': c05, 'C10': c10, 'C11': c11, 'C12': c12, 'C13': c13, 'C17': c17, 'C19': c19, 'C03': c03, 'C04': c04, 'C09': c09, 'C15': c15, 'C02': c02}
+CASES = {'C14': c14, 'C06': c06, 'C08': c08, 'C01': c01, 'C05': c05, 'C10': c10, 'C11': c11, 'C12': c12, 'C13': c13, 'C17': c17, 'C19': c19, 'C03': c03, 'C04': c04, 'C09': c09, 'C15': c15, 'C02': c02}
